@@ -1,5 +1,5 @@
 SPECIFICATION GenSpec
-CONSTANTS NA = 1 NB = 2 NV = 2 MaxLen = 3 MaxArg = 3 Prune = TRUE MaxDepth = 8
+CONSTANTS NA = 1 NB = 2 NV = 1 MaxLen = 3 MaxArg = 3 Prune = TRUE MaxDepth = 8
 CONSTRAINT Bound
 VIEW Skel
 INVARIANTS TypeOK Refines
